@@ -91,10 +91,18 @@ var c11Descs = map[int][]string{
 	3: {"SvcB"},
 	4: {"SvcC"},
 	5: {"SvcA", "SvcX"},
-	6: {"SvcL"}, // local only
+	6: {"SvcL"},         // local only
+	7: {"SvcA", "SvcB"}, // the same as 2, but every service in a file of its own (c11Split): one package, several files
+	8: {"SvcA"},         // the same as 1 in a later version of the schema: Req declares a new field before id (c11Reordered)
 }
 
-var c11Alphabet = []string{"R0.1", "R0.2", "R1.1", "R1.3", "R2.3", "R2.4", "R2.5", "D0", "D1", "D2", "D3", "L0.1", "L1.6"}
+// descriptor sets whose Req message is {tenant = 3; id = 1} (declaration order differs, numbers do not)
+var c11Reordered = map[int]bool{8: true}
+
+// descriptor sets whose services are declared in separate files that share a file of messages
+var c11Split = map[int]bool{7: true}
+
+var c11Alphabet = []string{"R0.1", "R0.2", "R1.1", "R1.3", "R2.3", "R2.4", "R2.5", "D0", "D1", "D2", "D3", "L0.1", "L1.6", "R1.7", "R2.8"}
 
 type c11Target struct {
 	node, verb int
@@ -176,6 +184,11 @@ func c11Targets() []c11Target {
 }
 
 func c11BuildFile(path string, svcs []string) protoreflect.FileDescriptor {
+	return c11BuildFileWith(path, svcs, nil, false)
+}
+
+// with common != nil the messages come from that file (imported) instead of being declared here
+func c11BuildFileWith(path string, svcs []string, common protoreflect.FileDescriptor, reordered bool) protoreflect.FileDescriptor {
 	str := descriptorpb.FieldDescriptorProto_TYPE_STRING.Enum()
 	opt := descriptorpb.FieldDescriptorProto_LABEL_OPTIONAL.Enum()
 	fdp := &descriptorpb.FileDescriptorProto{
@@ -185,6 +198,14 @@ func c11BuildFile(path string, svcs []string) protoreflect.FileDescriptor {
 			{Name: proto.String("Req"), Field: []*descriptorpb.FieldDescriptorProto{{Name: proto.String("id"), JsonName: proto.String("id"), Number: proto.Int32(1), Type: str, Label: opt}}},
 			{Name: proto.String("Rep"), Field: []*descriptorpb.FieldDescriptorProto{{Name: proto.String("tag"), JsonName: proto.String("tag"), Number: proto.Int32(1), Type: str, Label: opt}}},
 		},
+	}
+	if common != nil {
+		fdp.MessageType = nil
+		fdp.Dependency = append(fdp.Dependency, common.Path())
+	}
+	if reordered {
+		fdp.MessageType[0].Field = append([]*descriptorpb.FieldDescriptorProto{
+			{Name: proto.String("tenant"), JsonName: proto.String("tenant"), Number: proto.Int32(3), Type: str, Label: opt}}, fdp.MessageType[0].Field...)
 	}
 	for _, svc := range svcs {
 		sd := &descriptorpb.ServiceDescriptorProto{Name: proto.String(svc)}
@@ -206,11 +227,30 @@ func c11BuildFile(path string, svcs []string) protoreflect.FileDescriptor {
 		}
 		fdp.Service = append(fdp.Service, sd)
 	}
-	fd, err := protodesc.NewFile(fdp, protoregistry.GlobalFiles)
+	var rs protodesc.Resolver = protoregistry.GlobalFiles
+	if common != nil {
+		rs = c11Resolver{common}
+	}
+	fd, err := protodesc.NewFile(fdp, rs)
 	if err != nil {
 		panic(err)
 	}
 	return fd
+}
+
+type c11Resolver struct{ fd protoreflect.FileDescriptor }
+
+func (r c11Resolver) FindFileByPath(p string) (protoreflect.FileDescriptor, error) {
+	if r.fd.Path() == p {
+		return r.fd, nil
+	}
+	return protoregistry.GlobalFiles.FindFileByPath(p)
+}
+func (r c11Resolver) FindDescriptorByName(n protoreflect.FullName) (protoreflect.Descriptor, error) {
+	if d := r.fd.Messages().ByName(n.Name()); d != nil && d.FullName() == n {
+		return d, nil
+	}
+	return protoregistry.GlobalFiles.FindDescriptorByName(n)
 }
 
 // ---- backends ----
@@ -220,28 +260,40 @@ type c11Backend struct {
 	srv  *grpc.Server
 	cc   *grpc.ClientConn
 	cur  atomic.Value // protoreflect.FileDescriptor currently listed
+	more atomic.Value // []protoreflect.FileDescriptor listed beside it (split descriptor sets)
 	hits atomic.Int64
+}
+
+func (b *c11Backend) all() []protoreflect.FileDescriptor {
+	var out []protoreflect.FileDescriptor
+	if fd, _ := b.cur.Load().(protoreflect.FileDescriptor); fd != nil {
+		out = append(out, fd)
+	}
+	if m, _ := b.more.Load().([]protoreflect.FileDescriptor); m != nil {
+		out = append(out, m...)
+	}
+	return out
 }
 
 func (b *c11Backend) GetServiceInfo() map[string]grpc.ServiceInfo {
 	out := map[string]grpc.ServiceInfo{}
-	fd, _ := b.cur.Load().(protoreflect.FileDescriptor)
-	if fd == nil {
-		return out
-	}
-	for i := 0; i < fd.Services().Len(); i++ {
-		out[string(fd.Services().Get(i).FullName())] = grpc.ServiceInfo{}
+	for _, fd := range b.all() {
+		for i := 0; i < fd.Services().Len(); i++ {
+			out[string(fd.Services().Get(i).FullName())] = grpc.ServiceInfo{}
+		}
 	}
 	return out
 }
 func (b *c11Backend) FindFileByPath(p string) (protoreflect.FileDescriptor, error) {
-	if fd, _ := b.cur.Load().(protoreflect.FileDescriptor); fd != nil && fd.Path() == p {
-		return fd, nil
+	for _, fd := range b.all() {
+		if fd.Path() == p {
+			return fd, nil
+		}
 	}
 	return protoregistry.GlobalFiles.FindFileByPath(p)
 }
 func (b *c11Backend) FindDescriptorByName(n protoreflect.FullName) (protoreflect.Descriptor, error) {
-	if fd, _ := b.cur.Load().(protoreflect.FileDescriptor); fd != nil {
+	for _, fd := range b.all() {
 		if d := fd.Services().ByName(n.Name()); d != nil && d.FullName() == n {
 			return d, nil
 		}
@@ -255,6 +307,7 @@ func (b *c11Backend) FindDescriptorByName(n protoreflect.FullName) (protoreflect
 type c11Env struct {
 	backends []*c11Backend // 0..2 registered in histories, 3 never registered
 	files    map[int]protoreflect.FileDescriptor
+	more     map[int][]protoreflect.FileDescriptor
 	local    protoreflect.FileDescriptor
 	targets  []c11Target
 	cat      string
@@ -266,9 +319,20 @@ func c11Setup() *c11Env {
 	if c11env != nil {
 		return c11env
 	}
-	e := &c11Env{files: map[int]protoreflect.FileDescriptor{}, targets: c11Targets(), cat: c11Catalogue()}
+	e := &c11Env{files: map[int]protoreflect.FileDescriptor{}, more: map[int][]protoreflect.FileDescriptor{}, targets: c11Targets(), cat: c11Catalogue()}
 	for id, svcs := range c11Descs {
-		e.files[id] = c11BuildFile(fmt.Sprintf("c11/d%d.proto", id), svcs)
+		if c11Split[id] {
+			// messages in c11/d<id>_msgs.proto, every service in c11/d<id>_<k>.proto importing it
+			common := c11BuildFile(fmt.Sprintf("c11/d%d_msgs.proto", id), nil)
+			var fs []protoreflect.FileDescriptor
+			for k, svc := range svcs {
+				fs = append(fs, c11BuildFileWith(fmt.Sprintf("c11/d%d_%d.proto", id, k), []string{svc}, common, false))
+			}
+			e.files[id] = fs[0]
+			e.more[id] = append(fs[1:], common)
+			continue
+		}
+		e.files[id] = c11BuildFileWith(fmt.Sprintf("c11/d%d.proto", id), svcs, nil, c11Reordered[id])
 	}
 	e.local = c11BuildFile("c11/local.proto", []string{"SvcA", "SvcL"})
 	for i := 0; i < 4; i++ {
@@ -280,7 +344,27 @@ func c11Setup() *c11Env {
 			if err := ss.RecvMsg(&in); err != nil {
 				return err
 			}
-			return ss.SendMsg(wrapperspb.String(tag)) // same wire format as c11.Rep{tag}
+			// the request is c11.Req{id} in whatever field order this backend declares it: field 1, when
+			// present, is the "7" every probe puts into {id}; nothing else is ever sent
+			reply := tag
+			for raw := in.ProtoReflect().GetUnknown(); len(raw) > 0; {
+				num, typ, n := protowire.ConsumeTag(raw)
+				if n < 0 {
+					reply = tag + "!"
+					break
+				}
+				raw = raw[n:]
+				m := protowire.ConsumeFieldValue(num, typ, raw)
+				if m < 0 {
+					reply = tag + "!"
+					break
+				}
+				if v, k := protowire.ConsumeBytes(raw); num != 1 || typ != protowire.BytesType || k < 0 || string(v) != "7" {
+					reply = tag + "!" // a value in a field the request did not carry it in
+				}
+				raw = raw[m:]
+			}
+			return ss.SendMsg(wrapperspb.String(reply)) // same wire format as c11.Rep{tag}
 		}))
 		rpb.RegisterServerReflectionServer(b.srv, reflection.NewServer(reflection.ServerOptions{Services: b, DescriptorResolver: b}))
 		lis, err := net.Listen("tcp", "127.0.0.1:0")
@@ -330,6 +414,7 @@ func (e *c11Env) apply(m *larking.Mux, op string) (res string) {
 		cs, ds, _ := strings.Cut(rest, ".")
 		b := e.backends[atoi(cs)]
 		b.cur.Store(e.files[atoi(ds)])
+		b.more.Store(e.more[atoi(ds)])
 		ctx, cancel := context.WithTimeout(context.Background(), 10*time.Second)
 		defer cancel()
 		if err := m.RegisterConn(ctx, b.cc); err != nil {
